@@ -1,10 +1,133 @@
 import Driver.JsonUtil
+import DSV.LLO.Plugin
+import DSV.Go.Sha256
 open Lean
 namespace Driver
-open DSV
+open DSV DSV.LLO
 
-/-- op handlers of this area; return `none` for op names that are not handled here -/
+/-- big-endian uint32 -/
+def be32 (n : Nat) : List UInt8 :=
+  [UInt8.ofNat (n / 16777216 % 256), UInt8.ofNat (n / 65536 % 256), UInt8.ofNat (n / 256 % 256), UInt8.ofNat (n % 256)]
+
+/-- `MakeChannelHash` -/
+def makeChannelHash (cid : Nat) (cd : ChanDef) : List UInt8 :=
+  Sha256.sum (be32 cid ++ be32 cd.format ++ be32 cd.streams.length ++
+    cd.streams.flatMap (fun s => be32 s.sid ++ be32 s.agg) ++ cd.opts)
+
+def asCfg (j : Json) : P Cfg := do
+  pure { f := ← getNat j "f", version := ← getNat j "version", minInterval := ← getNat j "minInterval",
+         hasPred := (fldD j "hasPred") == Json.bool true }
+
+def asRR (j : Json) : P RetirementReport := do
+  pure { version := ← getNat j "version", va := ← asVA (fldD j "va") }
+
+def jRR (rr : RetirementReport) : Json := Json.mkObj [("version", jNat rr.version), ("va", jVA rr.va)]
+
+/-- the attestation table of an op: `[{"bytes":hex,"rr":RR}]` -/
+def asCheck (j : Json) : P (List UInt8 → Option RetirementReport) := do
+  let es ← (← asArr j).mapM fun e => do pure ((← getBytes e "bytes"), (← fld e "rr" >>= asRR))
+  pure fun b => (es.find? (fun e => e.1 == b)).map (·.2)
+
+def mkEnv (check : List UInt8 → Option RetirementReport) (badOpts : List (List UInt8)) : Env :=
+  { check := check, hashOf := makeChannelHash, verifyDef := fun cd => !badOpts.contains cd.opts }
+
+/-- observations: structured `Obs`, or `{"invalid":true}` (fails to decode; ignored) -/
+def asObsList (j : Json) : P (Nat × List Obs) := do
+  let arr ← asArr j
+  let obs ← arr.filterMapM fun e =>
+    if (fldD e "invalid") == Json.bool true then pure none else some <$> asObs e
+  pure (arr.length, obs)
+
+def jReportOut : ReportOut → Json
+  | .retirement rr => Json.mkObj [("kind", "retirement"), ("version", jNat rr.version), ("va", jVA rr.va)]
+  | .channel r fmt stage => Json.mkObj [("kind", "channel"), ("channel", jNat r.channelID), ("format", jNat fmt),
+      ("stage", .str stage), ("seqNr", jNat r.seqNr), ("validAfter", jNat r.validAfter), ("obsTs", jNat r.obsTs),
+      ("specimen", .bool r.specimen), ("values", .arr (r.values.map jOptSV).toArray)]
+
+def asNatList (j : Json) : P (List Nat) := do (← asArr j).mapM asNat
+
+/-- `Outcome()` as the harness calls it: previous outcome passed through the codec, result decoded -/
+def runOutcome (env : Env) (cfg : Cfg) (seqNr nAos : Nat) (prev : Outcome) (obs : List Obs) : GoRes Outcome :=
+  if nAos < 2 * cfg.f + 1 then .err "too-few-observations"
+  else if seqNr ≤ 1 then codecRoundTrip cfg (initialOutcome cfg)
+  else
+    match codecRoundTrip cfg prev with
+    | .ok p => (outcome env cfg {} nAos p obs).bind (codecRoundTrip cfg)
+    | .err _ => .err "encode-prev"
+    | .panic => .panic
+
+def runReports (cfg : Cfg) (missingFormats failChannels : List Nat) (seqNr : Nat) (o : Outcome) : List ReportOut :=
+  reports cfg {} (fun r fmt => !missingFormats.contains fmt && !failChannels.contains r.channelID) seqNr o
+
 def handleLLO (op : String) (j : Json) : Option (P Json) :=
   match op with
+  | "llo.hash" => some (do
+      let cid ← getNat j "id"
+      let cd ← fld j "def" >>= asChanDef
+      pure (Json.mkObj [("ok", jBytes (makeChannelHash cid cd))]))
+  | "llo.reportable" => some (do
+      let cfg ← fld j "cfg" >>= asCfg
+      let o ← fld j "outcome" >>= asOutcome
+      let cid ← getNat j "channel"
+      pure (Json.mkObj [("ok", match isReportable o cid cfg.version cfg.minInterval with
+        | none => Json.str "reportable"
+        | some .retired => "retired" | some .noDef => "no-def" | some .noVA => "no-va"
+        | some .tooSoon => "too-soon" | some .sameSecond => "same-second")]))
+  | "llo.outcome" => some (do
+      let cfg ← fld j "cfg" >>= asCfg
+      let seqNr ← getNat j "seqNr"
+      let prev ← fld j "prev" >>= asOutcome
+      let (n, obs) ← asObsList (fldD j "obs")
+      let check ← asCheck (fldD j "attestations")
+      let env := mkEnv check []
+      pure (jRes jOutcome (runOutcome env cfg seqNr n prev obs)))
+  | "llo.reports" => some (do
+      let cfg ← fld j "cfg" >>= asCfg
+      let seqNr ← getNat j "seqNr"
+      let o ← fld j "outcome" >>= asOutcome
+      let mf ← asNatList (fldD j "missingFormats")
+      let fc ← asNatList (fldD j "failChannels")
+      match codecRoundTrip cfg o with
+      | .ok o' => pure (Json.mkObj [("ok", .arr ((runReports cfg mf fc seqNr o').map jReportOut).toArray)])
+      | _ => pure (Json.mkObj [("err", "encode-outcome")]))
+  | "llo.observe" => some (do
+      let prev ← fld j "prev" >>= asOutcome
+      let expected ← asDefs (fldD j "expected")
+      let badOpts ← (← asArr (fldD j "badOpts")).mapM asBytes
+      let env := mkEnv (fun _ => none) badOpts
+      match observationVotes env prev expected with
+      | none => pure (Json.mkObj [("err", "refuse")])
+      | some (rm, upd) => pure (Json.mkObj [("ok", Json.mkObj [("removes", .arr (rm.map jNat).toArray), ("updates", jDefs upd)])]))
+  | "llo.history" => some (do
+      -- rounds are threaded: the outcome of round k is the previous outcome of round k+1; a failing
+      -- round leaves the state unchanged (OCR3 retries the round with other inputs)
+      let cfg ← fld j "cfg" >>= asCfg
+      let check ← asCheck (fldD j "attestations")
+      let env := mkEnv check []
+      let mf ← asNatList (fldD j "missingFormats")
+      let rounds ← getArr j "rounds"
+      let start : GoRes Outcome :=
+        match fldD j "start" with
+        | .null => codecRoundTrip cfg (initialOutcome cfg)
+        | s => match asOutcome s with
+          | .ok o => codecRoundTrip cfg o
+          | .error _ => .err "bad-start"
+      match start with
+      | .ok o0 =>
+        let mut cur := o0
+        let mut outs : Array Json := #[]
+        let mut seq := (← getNat j "startSeqNr")
+        for r in rounds do
+          seq := seq + 1
+          let (n, obs) ← asObsList (fldD r "obs")
+          match (outcome env cfg {} n cur obs).bind (codecRoundTrip cfg) with
+          | .ok o =>
+            cur := o
+            outs := outs.push (Json.mkObj [("outcome", jOutcome o),
+              ("reports", .arr ((runReports cfg mf [] seq o).map jReportOut).toArray)])
+          | .err e => outs := outs.push (Json.mkObj [("err", .str e)])
+          | .panic => outs := outs.push (Json.mkObj [("panic", .bool true)])
+        pure (Json.mkObj [("ok", .arr outs)])
+      | _ => pure (Json.mkObj [("err", "encode-start")]))
   | _ => none
 end Driver
